@@ -284,23 +284,44 @@ def _asyncio_queue_member(obj, attr):
     def q():
         return obj.attrs.setdefault("_queue", [])
 
+    def own(nm):
+        """the subclass's override of one of asyncio.Queue's documented hooks (_init / _put / _get), if it has one"""
+        it_ = Obj._active
+        if it_ is None or obj.cls is None:
+            return None
+        for k_ in it_.repo.mro(obj.cls):
+            if nm in k_.methods:
+                return k_.methods[nm]
+        return None
+
     def init(a, k):
+        ms_ = a[0] if a else k.get("maxsize", 0)
         obj.attrs["_queue"] = []
-        obj.attrs["maxsize"] = obj.attrs["_maxsize"] = (a[0] if a else k.get("maxsize", 0))
+        obj.attrs["maxsize"] = obj.attrs["_maxsize"] = ms_
         for nm in ("qsize", "empty", "full", "put_nowait", "get_nowait", "put", "get", "task_done"):
             obj.attrs.setdefault(nm, _asyncio_queue_member(obj, nm))
+        f_ = own("_init")
+        if f_ is not None:
+            Obj._active.call(f_, obj, [ms_])      # Queue.__init__ calls self._init(maxsize): the hook chooses the container
         return None
 
     def put(a, k):
         ms = obj.attrs.get("maxsize", 0)
         if isinstance(ms, int) and ms > 0 and len(q()) >= ms:
             raise PyRaise("asyncio.QueueFull")
+        f_ = own("_put")
+        if f_ is not None:
+            return Obj._active.call(f_, obj, [a[0]])
         q().append(a[0])
 
     def get(a, k):
         if not q():
             raise PyRaise("asyncio.QueueEmpty")
-        return q().pop(0)
+        f_ = own("_get")
+        if f_ is not None:
+            return Obj._active.call(f_, obj, [])
+        c_ = q()
+        return c_.popleft() if hasattr(c_, "popleft") else c_.pop(0)
     table = {"__init__": init, "qsize": lambda a, k: len(q()), "empty": lambda a, k: not q(),
              "full": lambda a, k: isinstance(obj.attrs.get("maxsize", 0), int) and 0 < obj.attrs.get("maxsize", 0) <= len(q()),
              "put_nowait": put, "get_nowait": get, "put": put, "get": get, "task_done": lambda a, k: None}
